@@ -211,7 +211,7 @@ func (e *Engine) trIdent(env *SpecEnv, name string) Val {
 			if bt, was := base[name]; was && bt != "?" {
 				var hits []Val
 				for n2, t2 := range localsOf(env.fc.fn) {
-					if _, old := base[n2]; old || t2 != bt {
+					if _, old := base[n2]; old || t2 != bt || strings.HasPrefix(n2, "$closure") {
 						continue
 					}
 					if v, ok := e.localByName(env, n2); ok {
